@@ -8,7 +8,7 @@ from common import time_limit
 ID = "C15"
 GEN_DEPENDS = ["C15Filters"]
 RULE = ("random rose trees (1-12 leaves quick, up to 40 thorough; unary nodes, polytomies, fixed families) x entry point "
-        "(39 kinds, incl. two live generators (pre/level-order) stepped next() by next() in a random interleaving: every *_iter / *_node_iter / *_edge_iter of Node and Tree, ancestor_iter, Tree.nodes/leaf_nodes/"
+        "(39 kinds, incl. two live generators (each pre-, level-, post-order or leaf) stepped next() by next() in a random interleaving: every *_iter / *_node_iter / *_edge_iter of Node and Tree, ancestor_iter, Tree.nodes/leaf_nodes/"
         "internal_nodes/edges/leaf_edges/internal_edges, len, apply, iter(); the one-step iterators and lists of Node: child_node_iter/"
         "child_edge_iter/child_nodes/child_edges/incident_edges/adjacent_nodes/sibling_nodes/sister_nodes; the first-hit searches "
         "Tree.find_node/find_nodes/find_node_with_label/find_node_with_taxon_label/find_node_for_taxon) x start node (Node methods on any node; Tree "
@@ -47,19 +47,32 @@ MODELLED_NOT_VERIFIED = [
     "on anything but the child lists); the preparation steps themselves (encode_bipartitions, prune_*, reroot ...) are not judged "
     "here, a refusal of one of them is counted (prep_refused) and the traversal is judged on the structure that is left",
     "C15: generator suspension: levelorder_iter and preorder_iter are also modelled one next() at a time over a mutable heap (lvNext, pvNext) with "
-    "frame/independence theorems; the other generators are modelled as complete runs only, their abandoned prefixes and "
+    "frame/independence AND output theorems; postorder_iter and leaf_iter too (poNext, lfNext) with frame/independence theorems only - that their "
+    "k-th next() returns the k-th item of the post-order / the k-th leaf, and that the fuel 2*n+2 per next() suffices, is the per-case "
+    "comparison (kind gensched, letters o / f); the in-order and age-order generators are modelled as complete runs only, their abandoned prefixes and "
     "interleavings are judged by the oracle on the Python side; a tree mutated by the CALLER during iteration is outside "
     "the statement; a filter is a set of "
     "accepted node ids - what the callable returns for them (bool or any truthy/falsy object) is varied on the Python side only; "
     "a stateful predicate is handed to the model as the set of ids it accepts when shown the defining order once (sound because the "
     "call sequence itself is judged by the oracle and compared with the machine's)",
+    "C15: filter calls: the traced machines (calls* kinds) exist for pre/post/level/leaf/internal/children and, through the edge-order "
+    "theorems, their edge variants; the call sequences of in-order, age-order, ancestor_iter and find_node are compared with the plain "
+    "machine under the all-accepting filter instead",
     "C15: age order: the model sorts stably (as list.sort does); the statement asks only for monotone age, so model and "
     "implementation are compared up to the order inside groups of equal age",
     "C15: find_node_with_taxon_label compares labels: the harness translates the label asked for into the set of taxon indices "
     "carrying it (two taxa may share a label) before the model is asked; node identity (`nd is not self`, `node.taxon is taxon`) "
     "is modelled by ids / taxon indices, pairwise distinct by construction (protocol_ids_distinct)",
 ]
-EXPLANATION = ("Round ext-3: (1) tie A - Gen/C15Filters.lean is regenerated from the source on every run (the truthiness-composed filter "
+EXPLANATION = ("Wave 2: the filter CALL sequence is part of the machines (Model/C15Calls.lean: traced pre/post/level-order machines, leafIterE, "
+               "internalGuard, childRunE; driver kinds calls*): traced_machines_conservative (what they yield = the plain machine under guard && keep, "
+               "what they show to the filter = the plain machine under the guard), filter_calls_spec (the filter is shown exactly the unfiltered "
+               "defining order, each item once; the leaf iterator shows it the leaves only, never an internal node), internal_filter_calls_spec (the "
+               "internal-node iterators show it exactly the non-leaves, never the excluded seed); postorder_iter and leaf_iter one next() at a time "
+               "over the heap (poNext / lfNext, Model/C15Gen.lean; driver generator letters o / f): postorder_generator_steps_local, "
+               "postorder_generators_independent (a suspended post-order / leaf generator is not disturbed by any other generator; that k calls "
+               "return the first k items of the post-order is compared per case, not proved); single-node corner cases of the internal edge "
+               "iterators as kernel-checked examples. Round ext-3: (1) tie A - Gen/C15Filters.lean is regenerated from the source on every run (the truthiness-composed filter "
                "lambdas of preorder/postorder_internal_node_iter, preorder/postorder_internal_edge_iter, leaf_iter, Node.leaf_nodes as Boolean "
                "functions of excl/hasFilter/hasParent/hasKids/pass; the traversal each delegates to; Tree.__len__ as init + n*step over the leaf "
                "iterator) and bridged to the model by internal_filter_bridge, leaf_filter_bridge, len_bridge (case analysis: a rewrite that keeps "
@@ -114,6 +127,12 @@ NEEDS_STATE = {"findlabel", "findtaxlabel", "findtaxon"}    # need labels / taxa
 USES_EXCL = {"preint", "postint", "preintedge", "postintedge", "internalnodes", "internaledges"}
 NODECLS = ["plain", "nobool", "nolen"]
 FSTYLES = ["bool", "mixed", "falsyfn", "partial", "alternate", "limit"]
+# kinds whose machine is also modelled with the filter call made observable (an edge iterator's filter sees the edge of
+# the node the node machine sees: edge_order_spec / wrapped_edge_iter_spec)
+CALLS_KIND = {"pre": "callspre", "preedge": "callspre", "nodes": "callspre", "edges": "callspre", "findnodes": "callspre",
+              "post": "callspost", "postedge": "callspost", "level": "callslevel", "leveledge": "callslevel",
+              "leaf": "callsleaf", "leafedge": "callsleaf", "preint": "callspreint", "preintedge": "callspreint",
+              "postint": "callspostint", "postintedge": "callspostint", "children": "callschildren", "childedges": "callschildren"}
 STATEFUL = {"alternate", "limit"}    # the answer depends on how often the predicate has been called, not on the node
 
 TRUTHY = [True, 1, "x", [0], (None,), 2.5, {"a": 1}, -1]
@@ -508,7 +527,7 @@ def oracle(c, w, seed):
         # two live generators (level-order; gensched: pre-order 'p' or level-order 'l' each) stepped in the order of the schedule: each must hand out its own defining order,
         # one node per next(), then StopIteration, whatever the other one does in between
         gk = c["gk"] if kind == "gensched" else "ll"
-        order = {"p": o_pre, "l": o_level}
+        order = {"p": o_pre, "l": o_level, "o": o_post, "f": lambda nd: [x for x in o_pre(nd) if is_leaf(x)]}
         seqs = {"1": I(order[gk[0]](seed)), "0": I(order[gk[1]](w.nodes[c["start2"]]))}
         pos = {"1": 0, "0": 0}
         out = []
@@ -653,7 +672,8 @@ def impl(c, w, seed, obj, cap=None, rec=None):
         return [t.__len__()] if c["alt"] else [len(t)]
     if kind in ("levelsched", "gensched"):
         gk = c["gk"] if kind == "gensched" else "ll"
-        mk = {"p": lambda nd: nd.preorder_iter(), "l": lambda nd: nd.levelorder_iter()}
+        mk = {"p": lambda nd: nd.preorder_iter(), "l": lambda nd: nd.levelorder_iter(),
+              "o": lambda nd: nd.postorder_iter(), "f": lambda nd: nd.leaf_iter()}
         gens = {"1": mk[gk[0]](seed), "0": mk[gk[1]](w.nodes[c["start2"]])}
         out = []
         for ch in c["sched"]:
@@ -926,7 +946,12 @@ def one_case(ctx, dendropy, c, pending):
         # the machine shows its filter every item it pops that reaches the test: its call sequence is its own output under
         # the filter that accepts everything
         toks_ = line.split(" ")
-        toks_[6] = "*"
+        if kind in CALLS_KIND:
+            # the traced machine (Model/C15Calls.lean, filter_calls_spec / internal_filter_calls_spec) run with the real filter:
+            # the items it shows to the filter
+            toks_[1] = CALLS_KIND[kind]
+        else:
+            toks_[6] = "*"
         pending.append((" ".join(toks_), c, age_canon(calls, ages) if kind in AGE else fmt(calls)))
     if kind in ("adjacent", "siblings"):   # the pointer-level reading (…_pointer_refinement) must say the same
         pending.append((line.replace("iter %s " % kind, "iter %sptr " % kind, 1), c, canon))
@@ -1069,7 +1094,7 @@ def make_case(rng, toks, n, kind, start=None, via=None, max_age=6):
     extra = {}
     if kind in ("levelsched", "gensched"):
         extra = {"start2": rng.randrange(n), "sched": "".join(rng.choice("01") for _ in range(rng.randint(1, 2 * n + 3))),
-                 "gk": rng.choice(["pl", "lp", "pp", "ll"])}
+                 "gk": rng.choice(["pl", "lp", "pp", "ll", "ol", "po", "oo", "fo", "lf", "fp", "of"])}
     return dict(extra, **{"prior": prior, "tree": toks, "kind": kind, "start": start, "via": via, "excl": rng.random() < 0.5, "incl": rng.random() < 0.5,
             "acc": acc, "fstyle": ("bool" if r < 0.25 else "mixed" if r < 0.55 else "falsyfn" if r < 0.65 else "partial" if r < 0.8
                        else "alternate" if r < 0.9 else "limit"), "fsalt": rng.randrange(8),
